@@ -21,6 +21,9 @@ fun SpecHas(el seq[Element], k int, x string) bool :=
 pred Distinct(el seq[Element], k int) := forall i, j int :: 0 <= i && i < j && j < k ==> el[i].Name != el[j].Name
 pred SortedStrict(el seq[Element], k int) := forall i, j int :: 0 <= i && i < j && j < k ==> el[i].Name < el[j].Name
 
+// a recipe book as the loader builds it: a non-nil map whose values are non-nil
+pred WfDB(db DBNodeMap) := db != nil && (forall k string :: {db[k]} k in db ==> db[k] != nil)
+
 func (*Elements).Index returns (n, ok)
   props C01 C02
   requires el != nil
